@@ -79,9 +79,10 @@ def make_device(kind: str, rng=None, *, length_units="um", xi=0.5, gamma=10.0, u
         for fac in (1.0, 0.9, 1.1, 0.8, 0.7, 1.25, 0.6):
             try:
                 dev.make_mesh(max_edge_length=mel * fac, smooth=smooth, min_points=min_points)
-                return dev
             except ValueError as e:
                 last = e
+                continue
+            return dev
         raise V.Infra(f"could not mesh zoo device {kind}: {last}")
     return dev
 
@@ -143,6 +144,10 @@ def mesh_zoo(rng, quick=True):
     out.append(("structured", structured_mesh(6, 5, jitter=0.2, rng=rng), None))
     base = out[0][1]
     out.append(("weighted", weighted_mesh(base, rng), out[0][2]))
+    # the same kind of mesh with coordinates that are small NUMBERS (a film of a few nm stated in metres): every length
+    # of the mesh is far below any absolute tolerance
+    rd = out[-3][1]
+    out.append(("tiny_units", Mesh.from_triangulation(np.asarray(rd.sites) * 3e-9, np.asarray(rd.elements)), None))
     return out
 
 
